@@ -681,6 +681,13 @@ class DynamicsSelector(abc.Mapping):
             for node_id in transition.topology.nodes:
                 decay = TwoBodyDecay.from_transition(transition, node_id)
                 self.__choices[decay] = create_non_dynamic
+        for transition in transitions:
+            # amplitudes are also formulated for permutations of identical particles
+            for graph in _perform_combinatorics(transition):
+                permuted_transition = _freeze(graph)
+                for node_id in permuted_transition.topology.nodes:
+                    decay = TwoBodyDecay.from_transition(permuted_transition, node_id)
+                    self.__choices.setdefault(decay, create_non_dynamic)
 
     @singledispatchmethod
     def assign(  # noqa: PLR6301
